@@ -157,8 +157,11 @@ def run_one(mod, proof, ix, workdir):
                             for fo in em.funcs.values()]
         out["extraction"] = {"rules": dict(em.report), "external_calls": dict(em.used_ext)}
         # a callee that the current code no longer calls is simply not replaced (harmless refactors must not break the check)
-        replace = [r for r in proof.replace if r in em.funcs]
-        out["unused_replacements"] = [r for r in proof.replace if r not in em.funcs]
+        import re as _re
+        body_text = "\n".join(fo.body for fo in em.funcs.values())
+        declared = set(getattr(mod, "assumed_contracts", {}).keys())
+        replace = [r for r in proof.replace if r in em.funcs or (r in declared and _re.search(r"\b%s\(" % _re.escape(r), body_text))]
+        out["unused_replacements"] = [r for r in proof.replace if r not in replace]
         res = P.prove(workdir, proof.name, text, entry, enforce=proof.enforce, replace=replace,
                       loop_contracts=proof.loop_contracts, solver=proof.solver, unwind=proof.unwind,
                       timeout=proof.timeout, object_bits=proof.object_bits, mem_gb=proof.mem_gb,
